@@ -1,6 +1,7 @@
 package interp
 
 import (
+	"go/types"
 	"regexp/syntax"
 	"strings"
 	"unicode"
@@ -149,6 +150,128 @@ func init() {
 					}
 				}
 			}
+			return Iface{}
+		})
+	})
+}
+
+func init() {
+	extraRegs = append(extraRegs, func(in *Interp) {
+		b := "internal/bytealg."
+		bytesOf := func(th *Thread, v Value) string { return th.str(bytesToStr(v), "bytealg") }
+		in.reg(b+"IndexByteString", func(th *Thread, fn *ssa.Function, a []Value) Value {
+			return int64(strings.IndexByte(th.str(a[0], "IndexByteString"), byte(th.concInt(a[1], "byte"))))
+		})
+		in.reg(b+"IndexByte", func(th *Thread, fn *ssa.Function, a []Value) Value {
+			return int64(strings.IndexByte(bytesOf(th, a[0]), byte(th.concInt(a[1], "byte"))))
+		})
+		in.reg(b+"LastIndexByteString", func(th *Thread, fn *ssa.Function, a []Value) Value {
+			return int64(strings.LastIndexByte(th.str(a[0], "LastIndexByteString"), byte(th.concInt(a[1], "byte"))))
+		})
+		in.reg(b+"LastIndexByte", func(th *Thread, fn *ssa.Function, a []Value) Value {
+			return int64(strings.LastIndexByte(bytesOf(th, a[0]), byte(th.concInt(a[1], "byte"))))
+		})
+		in.reg(b+"CountString", func(th *Thread, fn *ssa.Function, a []Value) Value {
+			return int64(strings.Count(th.str(a[0], "CountString"), string([]byte{byte(th.concInt(a[1], "byte"))})))
+		})
+		in.reg(b+"Count", func(th *Thread, fn *ssa.Function, a []Value) Value {
+			return int64(strings.Count(bytesOf(th, a[0]), string([]byte{byte(th.concInt(a[1], "byte"))})))
+		})
+		in.reg(b+"IndexString", func(th *Thread, fn *ssa.Function, a []Value) Value {
+			return int64(strings.Index(th.str(a[0], "IndexString"), th.str(a[1], "IndexString")))
+		})
+		in.reg(b+"Index", func(th *Thread, fn *ssa.Function, a []Value) Value {
+			return int64(strings.Index(bytesOf(th, a[0]), bytesOf(th, a[1])))
+		})
+		in.reg(b+"Equal", func(th *Thread, fn *ssa.Function, a []Value) Value {
+			x, _ := a[0].([]Value)
+			y, _ := a[1].([]Value)
+			return th.bytesEqual(x, y)
+		})
+		in.reg(b+"Compare", func(th *Thread, fn *ssa.Function, a []Value) Value {
+			return int64(strings.Compare(bytesOf(th, a[0]), bytesOf(th, a[1])))
+		})
+		in.reg(b+"MakeNoZero", func(th *Thread, fn *ssa.Function, a []Value) Value {
+			n := int(th.concInt(a[0], "MakeNoZero"))
+			out := make([]Value, n)
+			for i := range out {
+				out[i] = int64(0)
+			}
+			return out
+		})
+		in.reg("internal/stringslite.Index", func(th *Thread, fn *ssa.Function, a []Value) Value {
+			return int64(strings.Index(th.str(a[0], "Index"), th.str(a[1], "Index")))
+		})
+	})
+}
+
+
+// AbsCache models github.com/bluele/gcache caches: a bounded key/value store with
+// least-frequently-used eviction (ties: oldest). Keys are compared with the engine's
+// equality, so hash-token keys work.
+type AbsCache struct {
+	size    int
+	entries []*absCacheEntry
+}
+
+type absCacheEntry struct {
+	k, v Value
+	hits int
+}
+
+func init() {
+	extraRegs = append(extraRegs, func(in *Interp) {
+		g := "github.com/bluele/gcache."
+		cacheOf := func(v Value) *AbsCache { return (*(v.(*Value))).(Native).X.(*AbsCache) }
+		in.reg(g+"New", func(th *Thread, fn *ssa.Function, a []Value) Value {
+			th.stub("gcache: modelled as a bounded LFU map")
+			return ptrTo(Native{&AbsCache{size: int(th.concInt(a[0], "cache size"))}})
+		})
+		for _, m := range []string{"LFU", "LRU", "ARC", "Simple"} {
+			in.reg("(*"+g+"CacheBuilder)."+m, func(th *Thread, fn *ssa.Function, a []Value) Value { return a[0] })
+		}
+		in.reg("(*"+g+"CacheBuilder).Build", func(th *Thread, fn *ssa.Function, a []Value) Value {
+			t := in.Prog.ImportedPackage("github.com/bluele/gcache").Type("LFUCache").Type()
+			return Iface{T: types.NewPointer(t), V: a[0]}
+		})
+		notFound := func(th *Thread) Value {
+			gv := in.Prog.ImportedPackage("github.com/bluele/gcache").Var("KeyNotFoundError")
+			v := *in.global(gv)
+			if it, ok := v.(Iface); ok && it.T != nil {
+				return it
+			}
+			e := th.newError("Key not found.")
+			*in.global(gv) = e
+			return e
+		}
+		in.reg("(*"+g+"LFUCache).Get", func(th *Thread, fn *ssa.Function, a []Value) Value {
+			c := cacheOf(a[0])
+			for _, e := range c.entries {
+				if th.branch(th.equals(e.k, a[1])) {
+					e.hits++
+					return Tuple{e.v, Iface{}}
+				}
+			}
+			return Tuple{Iface{}, notFound(th)}
+		})
+		in.reg("(*"+g+"LFUCache).Set", func(th *Thread, fn *ssa.Function, a []Value) Value {
+			c := cacheOf(a[0])
+			for _, e := range c.entries {
+				if th.branch(th.equals(e.k, a[1])) {
+					e.v = a[2]
+					return Iface{}
+				}
+			}
+			if c.size > 0 && len(c.entries) >= c.size {
+				victim := 0
+				for i, e := range c.entries {
+					if e.hits < c.entries[victim].hits {
+						victim = i
+					}
+				}
+				c.entries = append(c.entries[:victim:victim], c.entries[victim+1:]...)
+			}
+			c.entries = append(c.entries, &absCacheEntry{k: a[1], v: a[2]})
 			return Iface{}
 		})
 	})
